@@ -99,7 +99,9 @@ fn fd_prog(r: &mut Rng) -> Prog {
     let shift = |t: &T| t.subst(&|x| match x { T::Var(k) => Some(T::Var(k + 1)), _ => None });
     let body: Vec<PG> = body.iter().map(|g| c16::shift_goal(g, &shift)).collect();
     let vs: Vec<T> = (1..=nv).map(T::Var).collect();
-    let s = match r.below(5) {
+    let s = match r.below(6) {
+        // FD variables inside an `Option` field of a compound (a compound object nested in a compound object)
+        5 => T::Comp(3, vec![T::Comp(4, vec![T::Comp(1, vec![vs[0].clone(), T::Num(7), vs[1].clone()])]), T::list(vs[1..].to_vec())]),
         0 => T::Comp(0, vec![vs[0].clone(), vs[1].clone()]),
         1 => T::Comp(2, vec![T::Comp(0, vec![vs[0].clone(), T::Num(0)]), T::list(vs[1..].to_vec())]),
         2 => T::Comp(1, vec![T::list(vs.clone()), T::Num(7), T::Comp(0, vec![vs[0].clone(), vs[0].clone()])]),
